@@ -26,6 +26,9 @@ for mp in sorted(glob.glob('/verif/seeded/*/meta.json')):
         ex = {p: r['exit'] for p, r in checks.items()}
         verdict = 'missed (exit codes %s)' % ex
     extra = m.get('comment', '')
+    fr = m.get('first_round')
+    if fr and not fr.get('detected_by') and det:
+        verdict += ' — **strengthened**: the first version of the check missed it (exit %s)' % {p: r['exit'] for p, r in (fr.get('checks') or {}).items()}
     rows.append((sid, m.get('breaks_property'), title, verdict + ((' — ' + extra) if extra else '')))
 tab = ['| id | property | change (first line of the agent\'s notes) | result of the quick checks |', '|---|---|---|---|']
 for r in rows:
